@@ -4,6 +4,8 @@ package c20
 import (
 	"time"
 
+	ae "github.com/godaddy/asherah/go/appencryption"
+
 	"verifh/h/env"
 	"verifh/vx"
 )
@@ -17,7 +19,7 @@ func Steady() {
 	cache := vx.Choice("cache", vx.Param("caches"))
 	f := e.Factory(e.Policy(pol, cache))
 	sess, _ := f.GetSession("p0")
-	I := secs(pol.Revoke)
+	I, E := secs(pol.Revoke), secs(pol.Expire)
 	tick := func() (int64, int64) {
 		vx.ClockFreeze(false)
 		s, n := vx.Now()
@@ -34,13 +36,32 @@ func Steady() {
 	_, err = sess.Decrypt(env.Ctx, *rec)
 	vx.Assert("C20.warm_decrypt_ok", err == nil)
 	N := vx.Param("N")
+	// ls/ln: the instant at which the keys were last (re)loaded - the warm-up, or the last operation that went to the store
+	// last confirmation instants, per key: (les,len) for the IK the session currently encrypts under, (lds,ldn) for
+	// the IK of the first record (what the decrypt operation needs); they are the same entry while no rotation happened
+	les, len_ := t0s, t0n
+	lds, ldn := t0s, t0n
+	ik0 := rec.Key.ParentKeyMeta.Created
+	ikc := ik0
+	skc := e.Store.Row(env.IKID("p0"), ikc).ParentKeyMeta.Created
 	for i := 0; i < N; i++ {
 		ts, tn := tick()
-		within := vx.TimeLE(ts, tn, t0s+I, t0n)
 		m0, k0 := e.Store.Calls(), e.KMS.Encs+e.KMS.Decs
-		if vx.Choice("op", 2) == 0 {
-			_, err = sess.Encrypt(env.Ctx, []byte{2})
+		isEnc := vx.Choice("op", 2) == 0
+		var within bool
+		if isEnc {
+			// rotation on expiry is a legitimate reason to go to the store
+			within = vx.And(vx.TimeLE(ts, tn, les+I, len_), vx.And(vx.TimeLE(ts, tn, ikc+E, 0), vx.TimeLE(ts, tn, skc+E, 0)))
+			var r2 *ae.DataRowRecord
+			r2, err = sess.Encrypt(env.Ctx, []byte{2})
+			if err == nil {
+				ikc = r2.Key.ParentKeyMeta.Created
+				if row := e.Store.Row(env.IKID("p0"), ikc); row != nil {
+					skc = row.ParentKeyMeta.Created
+				}
+			}
 		} else {
+			within = vx.TimeLE(ts, tn, lds+I, ldn)
 			_, err = sess.Decrypt(env.Ctx, *rec)
 		}
 		vx.Assert("C20.op_ok", err == nil)
@@ -52,6 +73,14 @@ func Steady() {
 			vx.Assert("C20.no_external_calls_within_interval", vx.Implies(within, dm == 0 && dk == 0))
 			if dm > 0 {
 				vx.Reach("C20.reloaded_after_interval")
+				// the re-read refreshes that key's entry: its next interval starts now
+				same := ikc == ik0
+				if isEnc || same {
+					les, len_ = ts, tn
+				}
+				if !isEnc || same {
+					lds, ldn = ts, tn
+				}
 			} else {
 				vx.Reach("C20.cache_hit")
 			}
